@@ -4,7 +4,7 @@ import sys
 from .. import core, addsweep
 from ..oracle import cal, dur
 
-CALS = ["ymd", "ywd", "yd", "ymcw", "bizda", "ldn", "mdn", "epoch"]
+CALS = ["ymd", "ywd", "yd", "ymcw", "bizda", "ldn", "mdn", "jdn", "epoch"]
 DAYS_N = [1, 2, 6, 7, 8, 27, 28, 29, 30, 31, 32, 59, 60, 365, 366, 367, 1461, 36524, 36525, 146097]
 WEEKS_N = [1, 4, 5, 52, 53, 5218]
 
@@ -66,7 +66,7 @@ def main(tier, seed):
     # the same additions with the result printed in ANOTHER calendar
     cross = []
     XO = {"ymd": ["ywd", "yd", "ymcw"], "ywd": ["ymd", "yd"], "yd": ["ymd", "ywd"], "ymcw": ["ymd", "ywd"],
-          "bizda": ["ymd"], "ldn": ["ymd", "ywd"], "mdn": ["ymd"], "epoch": [None]}
+          "bizda": ["ymd"], "ldn": ["ymd", "ywd"], "mdn": ["ymd"], "jdn": ["ymd", "yd"], "epoch": [None]}
     for i, t in enumerate(tasks):
         outs = XO[t[2]]
         if outs[i % len(outs)] is not None:
